@@ -1628,6 +1628,10 @@ pub fn eval_ternary_equality(lhs: &Value, rhs: &Value) -> Option<bool> {
     Value::Context(ls) => match rhs {
       Value::Context(rs) => {
         if ls.keys().len() == rs.keys().len() {
+          if ls.keys().any(|key| rs.get_entry(key).is_none()) {
+            // contexts have different keys, so they are NOT EQUAL
+            return Some(false);
+          }
           for (key1, value1) in ls.deref() {
             if let Some(value2) = rs.get_entry(key1) {
               if let Some(equal) = eval_ternary_equality(value1, value2) {
@@ -1679,6 +1683,16 @@ pub fn eval_ternary_equality(lhs: &Value, rhs: &Value) -> Option<bool> {
     },
     Value::Null(_) => match rhs {
       Value::Null(_) => Some(true),
+      Value::Boolean(_)
+      | Value::Number(_)
+      | Value::String(_)
+      | Value::Context(_)
+      | Value::Date(_)
+      | Value::Time(_)
+      | Value::DateTime(_)
+      | Value::DaysAndTimeDuration(_)
+      | Value::YearsAndMonthsDuration(_)
+      | Value::List(_) => Some(false),
       _ => None,
     },
     Value::List(ls) => match rhs {
